@@ -329,6 +329,19 @@ func check(in Input) (f *fail, p prediction) {
 		} else {
 			got = l.Type.Range
 		}
+		// the type's Root ("the root of this type that is the same", printed by the command's types
+		// format in the type's place) denotes the same set
+		if r := l.Type.Root; r != nil {
+			rg := r.Range
+			if t.Name == "length" {
+				rg = r.Length
+			}
+			if rg.String() != got.String() {
+				f0 = &fail{"root-of-the-type-denotes-another-set", "Root with " + got.String(), rg.String()}
+			}
+		} else {
+			f0 = &fail{"root-of-the-type-denotes-another-set", "a root", "nil"}
+		}
 	}); pan {
 		return &fail{"panic", "no panic", pt}, p
 	}
